@@ -38,5 +38,6 @@ func VerifC10_BandSharing(n, steps int) {
 			verifAssert(in.downlinkChannels[k] == down2[k], "mutating one band instance does not change a downlink channel of another instance")
 		}
 	}
+	verifNoGlobalWritesExcept("") // C10: no hidden package-level state is written
 	verifReach("done")
 }
